@@ -1293,14 +1293,43 @@ func (g *Gen) addrIdx(w *World, bech string) int {
 // ---------------------------------------------------------------------------------------------
 // governance
 
+// mixedOrderPending: an order is still raised with both an accept and a reject on it.
+func mixedOrderPending(e *EntModel) bool {
+	for _, id := range e.orderIds() {
+		o := e.Orders[id]
+		if o.Status != 1 {
+			continue
+		}
+		acc, rej := false, false
+		for _, d := range o.Decisions {
+			acc = acc || d.Decision == 2
+			rej = rej || d.Decision == 3
+		}
+		if acc && rej {
+			return true
+		}
+	}
+	return false
+}
+
 func (g *Gen) paramMsg(w *World) MsgSpec {
 	mod := pick(g.R, []string{"ent", "wrk", "bcn", "str"})
 	valid := g.pct(65)
 	auth := AddrGov
+	shrink := false
+	if mixedOrderPending(w.M.Ent) && g.pct(60) {
+		// the signer set shrinks under an order that already carries an accept and a reject: with
+		// the new, smaller numbers the order may satisfy the accept rule and the reject rule at once
+		mod, valid, shrink = "ent", true, true
+		w.Fault("gov.signers_shrink_under_mixed_order")
+	}
 	switch mod {
 	case "ent":
 		e := w.M.Ent
 		ns := 1 + g.R.Intn(4)
+		if shrink {
+			ns = 1
+		}
 		idx := []string{}
 		for i := 0; i < ns; i++ {
 			idx = append(idx, fmt.Sprint(1+i))
